@@ -1632,6 +1632,13 @@ func main() {
 	})
 	abstractFirst, validateEvery := instGlue(files)
 
+	// ---- declaration keywords → modifier set (lean/Generated/C07Decl.lean; its notes join shapeNotes below)
+	nDecl, err := declFacts(args.Repo, args.Out)
+	if err != nil {
+		fmt.Fprintln(os.Stderr, "extract/c07:", err)
+		os.Exit(1)
+	}
+
 	// ---- emit
 	var sb strings.Builder
 	sb.WriteString("import Model.Access\nimport Model.Types\nimport Model.Inst\n")
@@ -1684,7 +1691,7 @@ func main() {
 		fmt.Fprintln(os.Stderr, "extract/c07:", err)
 		os.Exit(1)
 	}
-	fmt.Printf("c07: %d access arms, %d boundaries, %d binding loops, %d shape notes\n", 2*len(table), len(bounds), len(loops), len(notes))
+	fmt.Printf("c07: %d access arms, %d boundaries, %d binding loops, %d declaration-keyword parsers, %d shape notes\n", 2*len(table), len(bounds), len(loops), nDecl, len(notes))
 	for _, n := range notes {
 		fmt.Println("  note:", n)
 	}
